@@ -14,11 +14,22 @@
 // An operation the harness cannot perform (slot occupied / empty, number out of the configured range,
 // s == d in a move) does not reach the library and returns -1 (the model does the same).
 //
+// cfg[4] = 1 asks for a process in which no static line has been used yet ("first use" cases: the first use of an
+// indexed line by a trigger thread and by a detector thread may be concurrent).  The component constructor then
+// touches no static line; if an earlier case has already run in this child process it ends the process right there
+// (`_Exit(0)` before anything of the case is logged): the parent forks a new child that starts with this case (the
+// repeated `CASE <id>` header replaces the empty first one).  In every case the constructor only *primes* the
+// indexed-line table with an out-of-range request (index COUNT, exception swallowed), so that whatever the library
+// initialises once per process is initialised on the driver's main thread, not inside a client thread's first call.
+// shared_ptr instances are vstd::shared_ptr (tripwire_extra.hpp): assignments by a client thread to an instance it
+// did not construct itself are a scheduling point + K_FAULT 6; everything else about them is invisible.
+//
 // Static lines (DECLARE_TRIPLINE / DECLARE_INDEXED_TRIPLINES) live for the whole child process, which
 // runs many cases: the component constructor (driver main thread, not scheduled, not logged) resets
 // them to false through the private accessors, so every case starts from untripped lines, as in the model.
 #include "vstd.hpp"
 #include "vpay.hpp"
+#include "tripwire_extra.hpp"  // vstd::shared_ptr: ownership rule on the line handles (silent when respected)
 #define std vstd
 #define private public  // harness-side only: TripWire::getLine / getIndexedLine for reset and final()
 #include "gmlc/concurrency/TripWire.hpp"
@@ -44,8 +55,20 @@ struct TripWireComp {
     {
         long ne = c.cfg.size() > 1 ? c.cfg[1] : 0;
         long nd = c.cfg.size() > 2 ? c.cfg[2] : 0;
-        TripWire::getLine()->store(false);
-        for (unsigned i = 0; i < TW_COUNT; ++i) TripWire::getIndexedLine(i)->store(false);
+        const bool fresh = c.cfg.size() > 4 && c.cfg[4] == 1;
+        static bool dirty = false;  // a case has already run in this process: static lines may have been used
+        if (fresh && dirty) std::_Exit(0);
+        dirty = true;
+        vs::slotreg().reset();
+        try {
+            (void)TripWire::getIndexedLine(TW_COUNT);
+        }
+        catch (const std::out_of_range&) {
+        }
+        if (!fresh) {
+            TripWire::getLine()->store(false);
+            for (unsigned i = 0; i < TW_COUNT; ++i) TripWire::getIndexedLine(i)->store(false);
+        }
         if (ne > 0) {
             lines.push_back(make_tripline());
             for (auto& l : make_triplines((int)(ne - 1))) lines.push_back(l);
